@@ -548,7 +548,7 @@ func drawC19(t *rapid.T, dir string, toolQuote map[string][]byte) *c19Case {
 		c.netMode = "fake-pcs"
 		var cands []gen.Fault
 		for _, f := range gen.Faults {
-			if f.Benign || (f.MinLevel >= gen.LvlColl && f.NewPKI == nil && !f.GetterOnly) {
+			if f.Benign || (f.MinLevel >= gen.LvlColl && f.NewPKI == nil && !f.GetterOnly && !f.EditsQuote) {
 				cands = append(cands, f)
 			}
 		}
